@@ -16,6 +16,10 @@ RULE = (
     "sign_via_gpg with shipped and freshly generated OpenPGP keys; entry filed under raw key q, well-formed, accepted by library and "
     "reference, rejected after each corruption. distinct = (workload, data length class, header length, corruption class[, bit])."
 )
+RULE_ADDENDUM = (
+    'Additional: shared / partial see_also values, header lengths incl. 65541/65542 and 2**20, thread schedule over different large payloads, re-signing revised documents through GnuPG.'
+)
+RULE = RULE + " " + RULE_ADDENDUM
 LIMITS = ["headers >= 4 GiB (32-bit length field overflow) cannot be built in memory", "GnuPG 2.2.40 only; no hardware tokens",
           "the GnuPG-backed securesystemslib stand-in (vf/shims) is harness code"]
 ASSUMPTIONS = ["reference digest construction (vf/refs/openpgp.py) follows RFC 4880 5.2.4; validated against GnuPG output and shipped fixtures",
